@@ -311,6 +311,47 @@ func colliders3(th bool) []coll3 {
 		}
 		out = append(out, coll3{"MeshToCollider(" + nm.name + ")", model3d.MeshToCollider(m), f, mn.Mid(mx), mx.Dist(mn) / 2, 0.2 * nm.k, true, 0, edges, nil})
 	}
+	// transformed colliders, wrapped once and wrapped twice with maps that do not commute (the wrappers stacked on
+	// each other, and the same composition handed over as one joined transform): the reference field is the
+	// original's field pulled back through the inverse of the composition, times its scale factor
+	{
+		rotA := model3d.Rotation(model3d.XYZ(1, 2, -1).Normalize(), 1.1)
+		tr := &model3d.Translate{Offset: model3d.XYZ(1.5, -0.5, 0.75)}
+		sc := &model3d.Scale{Scale: 0.5}
+		type dt = model3d.DistTransform
+		chains := []struct {
+			name  string
+			parts []dt // applied first to last
+			k     float64
+		}{
+			{"Translate", []dt{tr}, 1}, {"Rotation", []dt{rotA}, 1},
+			{"Rotation then Translate", []dt{rotA, tr}, 1}, {"Translate then Rotation", []dt{tr, rotA}, 1},
+			{"Scale then Translate", []dt{sc, tr}, 0.5}, {"Translate then Scale", []dt{tr, sc}, 0.5},
+			{"Translate then Rotation then Scale", []dt{tr, rotA, sc}, 0.5},
+		}
+		bases := ref.Shapes3(false)
+		for _, bi := range []int{0, 3, 9} {
+			b := bases[bi%len(bases)]
+			bc, ok := b.Obj.(model3d.Collider)
+			if !ok {
+				continue
+			}
+			for _, ch := range chains {
+				var joined model3d.JoinedTransform
+				stacked := bc
+				for _, t := range ch.parts {
+					joined = append(joined, t)
+					stacked = model3d.TransformCollider(t, stacked)
+				}
+				inv := joined.Inverse()
+				k, bs := ch.k, b
+				f := func(p model3d.Coord3D) float64 { return k * bs.SDF(inv.Apply(p)) }
+				ctr := joined.Apply(b.Center)
+				out = append(out, coll3{"TransformCollider stacked (" + ch.name + ") of " + b.Name, stacked, f, ctr, b.Extent * k, b.Feature * k, true, 0, nil, nil})
+				out = append(out, coll3{"TransformCollider(JoinedTransform " + ch.name + ") of " + b.Name, model3d.TransformCollider(joined, bc), f, ctr, b.Extent * k, b.Feature * k, true, 0, nil, nil})
+			}
+		}
+	}
 	// joined collider of two overlapping primitives: the surface is the union of both surfaces
 	s1, s2 := ref.Sphere(model3d.XYZ(0, 0, 0), 1), ref.Cylinder(model3d.XYZ(0.5, 0, -1), model3d.XYZ(0.7, 0.3, 1.2), 0.4)
 	out = append(out, coll3{"JoinedCollider(sphere,cylinder)", model3d.NewJoinedCollider([]model3d.Collider{s1.Obj.(model3d.Collider), s2.Obj.(model3d.Collider)}),
